@@ -317,6 +317,65 @@ pub fn drive_ops(a: &Args, out: &mut Out) {
         let mut n = l.clone();
         n.push(0);
         bigs.push((o, n));
+        // pairwise distinct items with one short shared block: cheap even for the quadratic LCS
+        // table (only non-zero cells are stored): 4 200 x 4 200 and 6 000 x 3 000 middle parts
+        for (lo, ln) in [(4200u32, 4200u32), (6000, 3000)] {
+            let mut o: Vec<u32> = (200_000..200_000 + lo).collect();
+            let mut n2: Vec<u32> = (300_000..300_000 + ln).collect();
+            let (po, pn) = (rng.below(lo as usize / 2), rng.below(ln as usize / 2));
+            for k in 0..40u32 {
+                o.insert(po + k as usize, 400_000 + k);
+                n2.insert(pn + k as usize, 400_000 + k);
+            }
+            for alg in [Algorithm::Lcs, Algorithm::Myers] {
+                let c = OCase {
+                    alg,
+                    old: o.clone(),
+                    new: n2.clone(),
+                    os: 0,
+                    oe: o.len(),
+                    ns: 0,
+                    ne: n2.len(),
+                    entry: "slices",
+                    fuel: -2,
+                };
+                let case = out.next_case();
+                out.emit(&record(&c, case));
+            }
+        }
+        // long runs: an inserted / deleted block that can slide thousands of steps
+        let mut runs: Vec<(Vec<u32>, Vec<u32>)> = vec![];
+        for l in [4095usize, 4096, 4097, rng.range(5000, 9000)] {
+            let run = vec![7u32; l];
+            let mut longer = run.clone();
+            longer.push(7);
+            runs.push((run.clone(), longer.clone()));
+            runs.push((longer.clone(), run.clone()));
+            let fence = |v: &Vec<u32>| -> Vec<u32> { std::iter::once(1).chain(v.iter().cloned()).chain(std::iter::once(2)).collect() };
+            runs.push((fence(&run), fence(&longer)));
+            let per: Vec<u32> = (0..l).flat_map(|_| [5u32, 6]).collect();
+            let mut per2 = per.clone();
+            per2.extend([5, 6]);
+            runs.push((fence(&per), fence(&per2)));
+            runs.push((fence(&per2), fence(&per)));
+        }
+        for (i, (x, y)) in runs.iter().enumerate() {
+            for alg in ALGS {
+                let c = OCase {
+                    alg,
+                    old: x.clone(),
+                    new: y.clone(),
+                    os: 0,
+                    oe: x.len(),
+                    ns: 0,
+                    ne: y.len(),
+                    entry: if i % 2 == 0 { "slices" } else { "textdiff" },
+                    fuel: -2,
+                };
+                let case = out.next_case();
+                out.emit(&record(&c, case));
+            }
+        }
         for (x, y) in bigs {
             for alg in [Algorithm::Myers, Algorithm::Patience] {
                 let c = OCase {
